@@ -21,7 +21,19 @@ VARIANTS = {
     "asan": ["-g", "-O1", "-fsanitize=address,undefined", "-fno-sanitize-recover=all", "-fno-omit-frame-pointer"],
     "tsan": ["-g", "-O1", "-fsanitize=thread"],
     "plain": ["-g", "-O2"],
+    # MemorySanitizer (clang only): use of uninitialised memory, which ASan cannot see (support for C06; nolibxml back end only,
+    # because libxml2 itself is not instrumented)
+    "msan": ["-g", "-O1", "-fsanitize=memory", "-fsanitize-memory-track-origins=2", "-fno-omit-frame-pointer", "-DVERIF_MSAN"],
 }
+COMPILER = {"msan": "clang-14"}
+
+
+def compiler(variant):
+    return COMPILER.get(variant, "gcc")
+
+
+def have_compiler(variant):
+    return shutil.which(compiler(variant)) is not None
 LINK_LIBS = ["-lm", "-ludev", "-lpciaccess", "-lxml2", "-lpthread"]
 GUARD = "HWLOC_VERIF"
 
@@ -97,7 +109,7 @@ def build_objs(variant="asan"):
 
     def cc(s):
         src = os.path.join(REPO, "hwloc", s + ".c")
-        r = run(["gcc", "-c"] + flags + [src, "-o", objs[s]])
+        r = run([compiler(variant), "-c"] + flags + [src, "-o", objs[s]])
         return s, r.returncode, r.stdout
 
     with ThreadPoolExecutor(NCPU) as ex:
@@ -117,17 +129,18 @@ def build_harness(name, variant="asan", include_c=(), extra_sources=(), extra_fl
     src = os.path.join(HARNESS, "h_" + name + ".c")
     deps = [src] + glob.glob(os.path.join(HARNESS, "*.h")) + [os.path.join(HARNESS, s) for s in extra_sources]
     key = sha_files(deps) + "-" + os.path.basename(objdir)
-    out = os.path.join(BUILD, "bin", "%s-%s" % (name, key))
+    vname = name if variant == "asan" else "%s.%s" % (name, variant)
+    out = os.path.join(BUILD, "bin", "%s-%s" % (vname, key))
     if os.path.exists(out):
         return out
     os.makedirs(os.path.dirname(out), exist_ok=True)
-    for old in glob.glob(os.path.join(BUILD, "bin", name + "-*")):
+    for old in glob.glob(os.path.join(BUILD, "bin", vname + "-*")):
         try:
             os.remove(old)
         except OSError:
             pass
     link_objs = [p for s, p in objs.items() if s not in include_c]
-    cmd = (["gcc"] + cflags(variant) + ["-I" + os.path.join(REPO, "hwloc"), "-I" + HARNESS,
+    cmd = ([compiler(variant)] + cflags(variant) + ["-I" + os.path.join(REPO, "hwloc"), "-I" + HARNESS,
            "-I" + os.path.join(REPO, "utils", "hwloc")] + list(extra_flags) +
            [src] + [os.path.join(HARNESS, s) for s in extra_sources] + link_objs + LINK_LIBS + ["-o", out])
     r = run(cmd)
